@@ -50,11 +50,11 @@ CHECKS = {
         ref="4/C07"),
     "C08": dict(
         technique="differential testing against numpy on an independent densification: single operations, three call forms, and generated operation chains with a dense shadow",
-        text="Every listed structural / elementwise / arithmetic operation on abelian arrays and block vectors compared with numpy (returns the dense answer or raises; all call forms alike); chains of 2-6 operations tracked against a dense shadow after every step so multi-step defects are reachable.",
+        text="Every listed structural / elementwise / arithmetic operation on abelian arrays and block vectors compared with numpy (returns the dense answer or raises; all call forms alike); allclose verdicts (positive and negative) equal the dense comparison; chains of 2-6 operations tracked against a dense shadow after every step so multi-step defects are reachable.",
         ref="4/C08"),
     "C09": dict(
         technique="model-based differential histories: lazy vs synchronised copy of the same tensor through the operation catalogue (Hypothesis)",
-        text="The same drawn operation history is applied to a lazily signed array and to its synchronised copy (partners synced); results must be equal after every step (decompositions through reconstruction and spectra), raising must agree, sync laws at the end; dedicated law for eigh / solve / qr / svd on generated lazy matrices.",
+        text="The same drawn operation history is applied to a lazily signed array and to its synchronised copy (partners synced); results must be equal after every step (decompositions through reconstruction and spectra), raising must agree, sync laws at the end; after every sign primitive the value equals the operand's value times the documented sign pattern (each requested sign applied exactly once); histories also start from sign tables that name unstored sectors; dedicated law for eigh / solve / qr / svd on generated lazy matrices.",
         ref="4/C09"),
     "C10": dict(
         technique="oracle = squared norm from the harness' densification; metamorphic network routes (Hypothesis, exact integer data)",
@@ -82,11 +82,11 @@ CHECKS = {
         ref="4/C15"),
     "C16": dict(
         technique="agreement among constructors and with the model's brute-force sector set; dense projection oracle (Hypothesis)",
-        text="__init__, from_blocks, from_fill_fn, random, from_dense (arbitrary labelings) and utils.from_dense with omitted optional arguments; dense->blocks->dense equals mask + stable reorder; to_dense/from_dense round trip.",
+        text="__init__ (charge inferred; fermionic phases= argument), from_blocks, from_fill_fn, random, from_dense (arbitrary labelings) and utils.from_dense with omitted optional arguments; dense->blocks->dense equals mask + stable reorder; to_dense/from_dense round trip.",
         ref="4/C16"),
     "C17": dict(
         technique="exhaustive enumeration of finite domains against an independent group model (itertools + 16 processes)",
-        text="Every group axiom is evaluated on the complete finite groups and on the stated U1 boxes; the sector enumerator is compared with a brute-force filter of the full product for every small array structure, and across symmetries sharing labels in one process. Exhaustive inside the stated bounds.",
+        text="Every group axiom is evaluated on the complete finite groups and on the stated U1 boxes (the library's own validity predicate accepts every member and rejects labels outside the group); the sector enumerator is compared with a brute-force filter of the full product for every small array structure, and across symmetries sharing labels in one process. Exhaustive inside the stated bounds.",
         ref="4/C17"),
     "C18": dict(
         technique="differential testing against Jordan-Wigner matrices on Fock space (Hypothesis)",
@@ -94,7 +94,7 @@ CHECKS = {
         ref="4/C18"),
     "C19": dict(
         technique="exhaustive enumeration of all graphs on <=4 sites plus generated graphs; oracle = lattice Hamiltonian on the full Fock space",
-        text="Each returned two-site array is lifted to the Fock space of all lattice modes and the sum compared with the Hamiltonian built from its definition; keys, bond names, directions and coordinations of the site description.",
+        text="Each returned two-site array is lifted to the Fock space of all lattice modes and the sum compared with the Hamiltonian built from its definition (coefficients all different, or a regular lattice with one impurity site / bond); keys, bond names, directions and coordinations of the site description.",
         ref="4/C19"),
     "C20": dict(
         technique="dtype table over the operation catalogue and exact value checks of zero-filling operations at single precision / complex / mixed dtypes (Hypothesis; ComplexWarning as error)",
